@@ -297,8 +297,39 @@ package casketfile
 //@   modifies Dispenser.cursor, Dispenser.tokens, parser.block, ServerBlock.Keys, ServerBlock.Tokens, parser.eof, parser.definedSnippets, MV:map[string][]github.com/tmpim/casket/casketfile.Token, MD:map[string][]github.com/tmpim/casket/casketfile.Token, E:github.com/tmpim/casket/casketfile.Token, E:github.com/tmpim/casket/casketfile.ServerBlock, ghost:fileLookups
 //@   loop 1 invariant p != nil && p.cursor >= -1
 
-//@ unit parser_entry_sweep props=C10,C11 nilchecks=on nonnil_params=on filter=`casketfile\.(Parse|allTokens|NewDispenser|NewDispenserTokens)$|casketfile\.lexer\)\.load$|casketfile\.parser\)\.doSingleImport$`
+//@ unit parser_entry_sweep props=C10,C11 nilchecks=on nonnil_params=on filter=`casketfile\.(Parse|allTokens|NewDispenser|NewDispenserTokens)$|casketfile\.lexer\)\.load$`
 //@ // the entry points of the Casketfile package (Parse, the token-only lexing of imported files, the dispenser
 //@ // constructors, loading the lexer, importing one file): safety sweep for every input
 //@ use casketfile/contracts_verif.go:dispenser_api
 //@ use @verif/specs/stdlib.spec:stdlib
+
+//@ unit single_import frames=on props=C10 nilchecks=on filter=`casketfile\.parser\)\.doSingleImport$`
+//@ // C10 "a configuration split into imported files parses like the same text inline": importing one file can only fail
+//@ // because that file cannot be opened, is a directory, cannot be read or lexed, or its absolute path cannot be formed - it
+//@ // does not depend on what the parser did before (the same file may be imported any number of times), and it changes
+//@ // nothing of the parser: the tokens are returned, stamped with the file's absolute path.
+//@ ghost ioFailures int
+//@ extern os.Open
+//@   modifies ghost:ioFailures
+//@   ensures (result1 == nil ==> (result0 != nil && ioFailures == old(ioFailures))) && (result1 != nil ==> ioFailures == old(ioFailures) + 1)
+//@ extern (*os.File).Stat
+//@   modifies ghost:ioFailures
+//@   ensures (result1 == nil ==> (result0 != nil && ioFailures == old(ioFailures))) && (result1 != nil ==> ioFailures == old(ioFailures) + 1)
+//@ extern invoke:(io/fs.FileInfo).IsDir
+//@   modifies ghost:ioFailures
+//@   ensures (result ==> ioFailures == old(ioFailures) + 1) && (!result ==> ioFailures == old(ioFailures))
+//@ extern (*os.File).Close
+//@ extern path/filepath.Abs
+//@   modifies ghost:ioFailures
+//@   ensures (result1 == nil ==> ioFailures == old(ioFailures)) && (result1 != nil ==> ioFailures == old(ioFailures) + 1)
+//@ func allTokens
+//@   modifies ghost:ioFailures
+//@   ensures (result1 == nil ==> ioFailures == old(ioFailures)) && (result1 != nil ==> ioFailures == old(ioFailures) + 1)
+//@ func (*Dispenser).Errf
+//@   requires d != nil
+//@   ensures result != nil
+//@ func (*parser).doSingleImport
+//@   requires p != nil
+//@   modifies ghost:ioFailures, E:github.com/tmpim/casket/casketfile.Token
+//@   ensures [fails_only_when_the_file_itself_cannot_be_read] (result1 != nil) == (ioFailures != old(ioFailures))
+//@   loop 1 invariant ioFailures == old(ioFailures)
